@@ -255,6 +255,15 @@ def observe(P, order):
     Lq, Rq = np.asarray(P.mult_L(), dtype=float) @ one, np.asarray(P.mult_R(), dtype=float) @ one
     if not (np.array_equal(Lq, props) and np.array_equal(Rq, props)):
         raise ViewsDisagree("properties %s, mult_L().1 %s, mult_R().1 %s" % (props, Lq, Rq))
+    # documented synonym properties of the live object are the same property (conj / conjugate, inv / inverse, exp / exponential, log / logarithm)
+    for a_, b_ in (("conj", "conjugate"), ("inv", "inverse"), ("exp", "exponential"), ("log", "logarithm")):
+        if hasattr(P, a_) and hasattr(P, b_):
+            try:
+                va, vb = np.asarray(getattr(P, a_), dtype=float), np.asarray(getattr(P, b_), dtype=float)
+            except Exception:      # both raise alike or not at all: the products / inverses themselves are judged by the trace
+                continue
+            if not np.array_equal(va, vb, equal_nan=True):
+                raise ViewsDisagree("%s %s, %s %s" % (a_, va, b_, vb))
     return props
 
 
